@@ -163,6 +163,8 @@ struct Ctx {
     // per-op scratch
     uint64_t budget_bytes = 0;
     bool skipped = false;     // the op could not be applied (no eligible operand)
+    bool fired = false;       // the injected allocation fault fired during the last run_sut
+    uint32_t op_allocs = 0;   // SUT allocations attempted by the last run_sut
     std::string site;         // op name + operand storage classes (filled by the op)
     bool fault_alloc_relevant = false;
     // run-level flags used by non-trivial rules
@@ -199,6 +201,7 @@ inline char cls_letter(size_t n, size_t limit) { return n == 0 ? 'e' : n + 1 < l
 void set_viol(Ctx &c, const char *cls, const std::string &msg);
 
 // ------------------------------------------------------------------ running library code
+void update_fatal_ctx(const Ctx &c);   // run.cpp: refresh the FATAL-line context with the current site
 uint64_t op_budget(const Ctx &c);
 // run f() as library code under the heap fault plan and the step watchdog; classify what it throws
 template <class F> ExcKind run_sut(Ctx &c, const Op &op, F &&f) {
@@ -218,6 +221,8 @@ template <class F> ExcKind run_sut(Ctx &c, const Op &op, F &&f) {
     }
     uint64_t used = simrt::clock_disarm();
     simrt::heap_op_end();
+    c.fired = simrt::heap_fault_fired();
+    c.op_allocs = simrt::heap_op_allocs();
     if (c.stats) { c.stats->steps += used; c.stats->exceptions[ex]++; }
     return ex;
 }
